@@ -7,6 +7,22 @@ Open Scope N_scope.
 Lemma nth_repeat_nil_gen k n : nth k (repeatN (@nil Z) n) [] = [].
 Proof. unfold repeatN. generalize (N.to_nat n). induction k as [|k IH]; intros [|m]; cbn; auto. Qed.
 
+(* The repaired error path: when fill_buf reports an error, whatever the failed decode left in the
+   decoder's frame buffer is marked consumed, so no later call hands it out (any file, any state). *)
+Lemma chan_fill_error_hides F r e :
+  f_rev F = Repaired -> snd (chan_fill_buf F r) = OErr e ->
+  pcm_frames (d_buf (cr_dec (fst (chan_fill_buf F r)))) <= cr_consumed (fst (chan_fill_buf F r)).
+Proof.
+  intros Hrev. unfold chan_fill_buf. rewrite Hrev.
+  destruct (cr_consumed r <? pcm_frames (d_buf (cr_dec r))).
+  - unfold channels. destruct (pcm_frames (d_buf (cr_dec r)) =? 0); cbn; discriminate.
+  - destruct (read_frame F (cr_dec r)) as [d' [[f|]|e'|k]]; cbn [fst snd cr_dec cr_consumed].
+    + unfold channels. destruct (pcm_frames f =? 0); cbn; discriminate.
+    + discriminate.
+    + intros _. lia.
+    + discriminate.
+Qed.
+
 Section Chan.
   Variable F : file.
   Hypothesis V : valid_file F.
